@@ -118,7 +118,8 @@ func (f *Formatter) Format(vcl *ast.VCL) io.Reader {
 	}
 	buf.WriteString("\n")
 
-	return bytes.NewReader(buf.Bytes())
+	// Restore the line feeds of long string literals (this also copies the pooled buffer)
+	return bytes.NewReader(bytes.ReplaceAll(buf.Bytes(), []byte(literalLineFeed), []byte("\n")))
 }
 
 // Calculate and crate ident strings from config (shorthand, without passing config)
